@@ -20,7 +20,9 @@ RULE = (
     "all-ones diagonal} (scaled 0.5) x grid states x innovation_filtering in {None, 5.0}; one evaluation = one "
     "sensor_model call compared with the exact reference (x+, P+, recorded innovation and S) plus the corollaries "
     "(z = h(x) leaves x unchanged; P+ symmetric; P - P+ PSD). Readings the reference NIS puts outside the gate are "
-    "counted and left to C06. distinct = (program, covariance); non-trivial = sensor has >=2 readings or model >=2 states."
+    "counted and left to C06. The unit and all-ones directions are also scaled so that the normalised innovation is 35 %, 65 % "
+    "and 90 % of the documented limit 5*sqrt(2m)+m (moderate innovations well inside the gate, incl. sensors with more readings "
+    "than the model has states). distinct = (program, covariance); non-trivial = sensor has >=2 readings or model >=2 states."
 )
 ASSUMPTIONS = [
     "covariances SPD with condition <= 1e4, per-reading noise positive (property's domain)",
@@ -97,6 +99,16 @@ def eval_case(case):
                     deltas.append([sgn if j == i else 0.0 for j in range(m)])
             if m > 1:
                 deltas.append([0.5] * m)
+            # moderate innovations: the same directions scaled so that the normalised innovation is 35%, 65%, 90% of the documented
+            # limit k*sqrt(2m)+m - well inside "accepted", far from tiny (a limit computed from anything but m shows here)
+            T5 = 5.0 * sqrt(2 * m) + m
+            for base in ([deltas[1]] + ([deltas[-1]] if m > 1 else [])):
+                zb = [R.mp.mpf(float(h + R.mp.mpf(dl))) for h, dl in zip(hx, base)]
+                nis_b = float(ref.update(key, full, Pm, zb)[4])
+                if nis_b > 0:
+                    for theta in (0.35, 0.65, 0.9):
+                        al = sqrt(theta * T5 / nis_b)
+                        deltas.append([dl * al for dl in base])
             for delta in deltas:
                 z = [h + R.mp.mpf(dl) for h, dl in zip(hx, delta)]
                 zf = [float(v) for v in z]
